@@ -102,6 +102,9 @@ def run_property(pid: str, tier: str, seed: int) -> int:
             functions.append({"function": f"lemma.{l.name}", "obligations": len(obs)})
         except Unsupported as e:
             undecided.append(f"lemma.{l.name}: {e}")
+    hints = ledger.get("hints", {})
+    for o in all_obs:
+        o.hint = hints.get(o.name)
     res = discharge(all_obs)
     classes: Dict[str, Dict[str, Any]] = {}
     by_backend: Dict[str, int] = defaultdict(int)
@@ -289,14 +292,17 @@ def write_ledger(pids):
         res = discharge(obs)
         ok, covers = set(), set()
         bad = set()
+        hints = {}
         for o, r in zip(obs, res):
             if o.expect_sat:
                 if r["verdict"] != "unsat":
                     covers.add(o.name)
                 continue
             (ok if r["verdict"] == "unsat" else bad).add(o.name)
+            if r["verdict"] == "unsat" and (r["solver"] or "").startswith("cvc5"):
+                hints[o.name] = "cvc5"
         ok -= bad
-        json.dump({"classes": sorted(ok), "covers": sorted(covers), "functions": fns}, open(os.path.join(HERE, "ledger", f"{pid}.json"), "w"), indent=1)
+        json.dump({"classes": sorted(ok), "covers": sorted(covers), "functions": fns, "hints": hints}, open(os.path.join(HERE, "ledger", f"{pid}.json"), "w"), indent=1)
         print(f"{pid}: {len(ok)} classes in ledger, {len(bad)} not discharged: {sorted(bad)[:8]}")
 
 
